@@ -8,8 +8,11 @@ from common import *
 MUT = ("push", "extend", "collect")
 
 
-def histories(ctx, max_ops, max_len, tag, simulate=None):
-    r = tlc_mc(ctx, "MC_Soa", constants={"MaxOps": max_ops, "MaxLen": max_len}, tag=tag, simulate=simulate,
+ALLK = "{0, 1, 2, 3, 4, 5}"
+
+
+def histories(ctx, max_ops, max_len, tag, simulate=None, kinds="{0}"):
+    r = tlc_mc(ctx, "MC_Soa", constants={"MaxOps": max_ops, "MaxLen": max_len, "Kinds": kinds}, tag=tag, simulate=simulate,
                workers=6 if ctx.quick else 12)
     hs = extract_prints(r.out_path, "REPLAY")
     if simulate:
@@ -33,13 +36,15 @@ def run(ctx):
     bins = cargo_build(["soa"])
     if ctx.quick:
         exh = histories(ctx, 3, 4, "soa_exh")
-        sim = histories(ctx, 14, 6, "soa_sim", simulate=(700, 16))
-        plan = [("soa_exh", exh, "hsva,rgb"), ("soa_sim", sim, "hsva,rgb,laba,oklch,luma,jmha")]
+        exk = histories(ctx, 2, 4, "soa_kinds", kinds=ALLK)        # every range form (a..=b, ..b, ..=b, a.., ..) to depth 2
+        sim = histories(ctx, 14, 6, "soa_sim", simulate=(700, 16), kinds=ALLK)
+        plan = [("soa_exh", exh, "hsva,rgb"), ("soa_kinds", exk, "hsva,rgb,oklch"), ("soa_sim", sim, "hsva,rgb,laba,oklch,luma,jmha")]
     else:
         exh = histories(ctx, 3, 4, "soa_exh")
+        exk = histories(ctx, 3, 4, "soa_kinds", kinds=ALLK)
         exh4 = histories(ctx, 4, 3, "soa_exh4")
-        sim = histories(ctx, 30, 8, "soa_sim", simulate=(8000, 32))
-        plan = [("soa_exh", exh, "hsva,rgb,laba,oklch,luma,jmha"), ("soa_exh4", exh4, "hsva"),
+        sim = histories(ctx, 30, 8, "soa_sim", simulate=(8000, 32), kinds=ALLK)
+        plan = [("soa_exh", exh, "hsva,rgb,laba,oklch,luma,jmha"), ("soa_kinds", exk, "hsva,rgb"), ("soa_exh4", exh4, "hsva"),
                 ("soa_sim", sim, "hsva,rgb,laba,oklch,luma,jmha")]
     total_h, nontrivial = 0, set()
     for tag, hs, types in plan:
@@ -59,7 +64,7 @@ def run(ctx):
             ty = next((e.get("ty") for e in reversed(scen) if e.get("ev") == "reset"), "?")
             coords = {"kind": "soa", "op": ev.get("op"), "ty": ty}
             what = "collection %s: call %s(%s,%s,%s,%s) replied %s / contents %s but the reference vector says %s" % (
-                ty, ev.get("op"), ev.get("a"), ev.get("b"), ev.get("c"), ev.get("d"), ev.get("ret"), ev.get("comps"), info)
+                ty, ev.get("op") + ("" if not ev.get("k") else "[range form %s]" % ["a..b", "a..=b", "..b", "..=b", "a..", ".."][ev["k"]]), ev.get("a"), ev.get("b"), ev.get("c"), ev.get("d"), ev.get("ret"), ev.get("comps"), info)
             report(ctx, coords, what, {"bin": "soa", "type": ty, "scenario": scen, "rejected_event": ev,
                                        "trace_line": line, "how": "./check C18 --replay <this file>"})
     ctx.cov["distinct_nontrivial"] = len(nontrivial)
@@ -77,7 +82,7 @@ def run(ctx):
 def replay(ctx, path):
     rp = json.load(open(path))["replay"]
     bins = cargo_build(["soa"])
-    ops = [[e["op"], e["a"], e["b"], e["c"], e["d"]] for e in rp["scenario"] if e.get("ev") == "soa"]
+    ops = [[e["op"], e["a"], e["b"], e["c"], e["d"], e.get("k", 0)] for e in rp["scenario"] if e.get("ev") == "soa"]
     hp = ctx.p("replay.hist")
     open(hp, "w").write(json.dumps(ops) + "\n")
     tp = ctx.p("replay.ndjson")
